@@ -60,6 +60,22 @@ mod verif_replay_c15b {
         out
     }
 
+    fn halves(text: &str) -> (String, String) {
+        let cs: Vec<char> = text.chars().collect();
+        let m = cs.len() / 2;
+        (cs[..m].iter().collect(), cs[m..].iter().collect())
+    }
+    fn pair_doc(text: &str, raw_ws: bool) -> String {
+        if text.is_empty() {
+            return String::new();
+        }
+        let (a, b) = halves(text);
+        format!("{}={}", pct(&a, raw_ws), pct(&b, raw_ws))
+    }
+    fn pairs_expected(text: &str) -> Vec<(String, String)> {
+        if text.is_empty() { vec![] } else { vec![halves(text)] }
+    }
+
     #[test]
     fn verif_replay_c15b() {
         let Ok(path) = std::env::var("VERIF_C15B_SCRIPT") else {
@@ -100,7 +116,9 @@ mod verif_replay_c15b {
                     // a complete JSON value followed by characters that are not whitespace
                     if trailing { format!("{d}{{\"k\":\"other\"}}") } else { d }
                 } else {
-                    format!("k={}", pct(&text, true))
+                    // one pair whose key and value are the two halves of the text: both edges of the body
+                    // are under the script's control
+                    pair_doc(&text, true)
                 };
                 let head = RequestHead { method: http::Method::POST, target: "/".parse().unwrap(), version: http::Version::HTTP_11, headers };
                 let body = BufferedBody { bytes: bytes::Bytes::from(doc.clone().into_bytes()) };
@@ -115,6 +133,13 @@ mod verif_replay_c15b {
                         Err(ExtractJsonBodyError::MissingContentType(_)) => (1, None),
                         Err(ExtractJsonBodyError::ContentTypeMismatch(_)) => (2, None),
                         Err(ExtractJsonBodyError::DeserializationError(_)) => (3, None),
+                    }
+                } else if !fails {
+                    match UrlEncodedBody::<Vec<(String, String)>>::extract(&head, &body) {
+                        Ok(b) => (0, Some(if b.0 == pairs_expected(&text) { text.clone() } else { format!("{:?}", b.0) })),
+                        Err(ExtractUrlEncodedBodyError::MissingContentType(_)) => (1, None),
+                        Err(ExtractUrlEncodedBodyError::ContentTypeMismatch(_)) => (2, None),
+                        Err(ExtractUrlEncodedBodyError::DeserializationError(_)) => (3, None),
                     }
                 } else {
                     match UrlEncodedBody::<Field>::extract(&head, &body) {
@@ -159,7 +184,7 @@ mod verif_replay_c15b {
                 let target = match &bytes {
                     None => "/p".to_string(),
                     Some(_) if fails => "/p?q=1".to_string(),
-                    Some(_) => format!("/p?k={}", pct(&text, false)),
+                    Some(_) => format!("/p?{}", pair_doc(&text, false)),
                 };
                 let head = RequestHead { method: http::Method::GET, target: target.parse().unwrap(), version: http::Version::HTTP_11, headers };
                 if bytes.is_none() {
@@ -172,18 +197,18 @@ mod verif_replay_c15b {
                         other => problems.push(format!("no query string: expected an empty parameter set, got {:?}", other.map(|q| q.0))),
                     }
                 } else {
-                    match QueryParams::<Field>::extract(&head) {
-                        Ok(q) => {
-                            if fails {
-                                problems.push("a query string without the required field was accepted".to_string());
-                            } else if q.0.k != text {
-                                problems.push(format!("the handler received {:?}, the client encoded {text:?}", q.0.k));
-                            }
+                    if fails {
+                        if QueryParams::<Field>::extract(&head).is_ok() {
+                            problems.push("a query string without the required field was accepted".to_string());
                         }
-                        Err(e) => {
-                            if !fails {
-                                problems.push(format!("a well-formed query string was refused: {e:?}"));
+                    } else {
+                        match QueryParams::<Vec<(String, String)>>::extract(&head) {
+                            Ok(q) => {
+                                if q.0 != pairs_expected(&text) {
+                                    problems.push(format!("the handler received {:?}, the client encoded {:?} (target {target:?})", q.0, pairs_expected(&text)));
+                                }
                             }
+                            Err(e) => problems.push(format!("a well-formed query string was refused: {e:?}")),
                         }
                     }
                 }
